@@ -30,7 +30,8 @@ Inductive error_form :=
 | ENone                      (* default: ViolationError with the generated message *)
 | EClass (k : Z)             (* exception class k, instantiated with the message *)
 | EInstance (t : Z)          (* exception instance t, raised as is *)
-| EFactory (eargs : list string).   (* function/method called with the named values *)
+| EFactory (eargs emand : list string).   (* function/method called with the values it names; [emand]: its
+                                             parameters without a default value *)
 
 Inductive err_result := ERetExn (t : Z) | ERetOther | ERaise (e : Z).
 Inductive cap_result := CapRet (v : pv) | CapRaise (e : Z).
@@ -140,8 +141,8 @@ Definition create_violation_error (U : user) (r : role) (c : contract) (resolved
   | ENone => reeval ;;; ret (XViolation (cid c))
   | EClass k => reeval ;;; ret (XClass k (cid c))
   | EInstance t => ret (XObj t)
-  | EFactory eargs =>
-      match select eargs eargs resolved with
+  | EFactory eargs emand =>
+      match select eargs emand resolved with
       | None => throw (XLib "TypeError" None)
       | Some kw =>
           emit (fun _ => EvError (cid c) kw) ;;;
